@@ -22,6 +22,10 @@ type c15Term struct {
 func c15XdY(r *fw.Rand) c15Term {
 	times := int64(r.Range(1, 6))
 	sides := fw.PickT(r, []int64{1, 2, 6, 20, 100})
+	if r.P(1, 5) {
+		// face counts around the 16-, 31- and 32-bit boundaries and beyond
+		sides = fw.PickT(r, []int64{1000, 65535, 65536, 65537, 2147483646, 2147483647, 2147483648, 3000000000, 4294967295, 4294967296, 4294967297, 1 << 40})
+	}
 	src := fmt.Sprintf("%dd%d", times, sides)
 	kept := times
 	switch r.Intn(6) {
